@@ -33,6 +33,9 @@ CLAIMS = {
  "C10": dict(design="§2 C10",
    text="Recording Serializer: for ALL obtainable values, serialize() is exactly one serialize_newtype_struct(<declared name>, &inner) around the inner value's own event; the recorded event fed to the C04 stub Deserializer yields the same stored bits. Numeric families, struct/Option/tuple inner types, generic newtype name.",
    note="'Byte-identical in JSON/MessagePack' follows from those formats' documented newtype handling (trusted); real encoders/decoders not executed."),
+ "C11": dict(design="§2 C11, String plan",
+   text="Numeric: for ALL obtainable values (idempotent symbolic sanitizer) re-entering through try_new, TryFrom and Deserialize(stub event) reproduces the stored bits. Strings: every order of {trim, lowercase|uppercase} x validator sets on skeleton inputs; canonicity as a one-step invariant: from ANY obtainable value (the image of the sanitizer chain, established by a first-pass harness) each of try_new/new, TryFrom/From<&str>, FromStr, Deserialize accepts it and stores the same text - which covers chains of any length.",
+   note="Idempotence over the rest of Unicode (final sigma, dotted capital I, ligatures, the full White_Space set) is a statement about core::unicode tables and is not encodable within reach. -Z stubbing models of trim/to_lowercase/to_uppercase are exact on the harness alphabet and validated natively before every run. Numeric Display->FromStr chains are not executed."),
  "C12": dict(design="§2 C12",
    text="finite float newtypes: for ALL triples of bit patterns and ALL non-NaN bounds, obtainable values are finite, == reflexive, cmp antisymmetric/transitive, agrees with partial_cmp of the inner floats and with ==, never panics; NaN/inf unobtainable through try_new, TryFrom, Default (symbolic default) and Deserialize (stub events).",
    note="FromStr and Arbitrary entry points for finite declarations are decided in C06 / C09. slice::sort not executed."),
@@ -52,7 +55,7 @@ NA = {
 }
 SKIP = set()
 checks = []
-PENDING = {"C08"}
+PENDING = set()
 for pid, c in sorted(CLAIMS.items()):
     if pid in PENDING:
         continue
